@@ -34,7 +34,7 @@ def lib_call(op, fn, *a, **k):
 
     try:
         return fn(*a, **k)
-    except (kernel.Deadlock, kernel.StepCap, kernel.SimAbort, seams.UnseamedNondeterminism):
+    except (kernel.Deadlock, kernel.StepCap, kernel.Overdue, kernel.SimAbort, seams.UnseamedNondeterminism):
         raise
     except Exception as e:  # noqa
         raise LibRaised(op, e) from e
